@@ -498,6 +498,8 @@ static void numbers() {
     // boundary magnitudes, +-3 around each, in both bases, with decorations
     std::vector<u128> bounds = {0, 1, 9, 10, 15, 16, 99, 100, 101, 999, 1000, 65535, 65536, ((u128)1 << 31) - 1, (u128)1 << 31, ((u128)1 << 32) - 1, (u128)1 << 32,
                                 (u128)INT64_MAX / 16, (u128)INT64_MAX / 10, (u128)INT64_MAX, (u128)INT64_MAX + 1, ((u128)1 << 64) - 1, (u128)1 << 64, ((u128)INT64_MAX) * 10, ((u128)INT64_MAX) * 16, (u128)1 << 100};
+    // values that land inside a parser's valid range after truncation to 16/31/32/63/64 bits (a narrowing conversion before the range check)
+    for (u128 k : {(u128)1 << 16, (u128)1 << 31, (u128)1 << 32, (u128)1 << 33, (u128)1 << 63, (u128)1 << 64}) for (u128 v : {(u128)1, (u128)80, (u128)100, (u128)200, (u128)404, (u128)999, (u128)8080, (u128)65535}) { bounds.push_back(k + v); bounds.push_back(k * 3 + v); }
     const std::vector<std::string> pre = {"", " ", "\t", "0", "000", "+", "-", "x", "\r\n"}, post = {"", " ", "\t ", ";ext", " ;x=1", "x", "\r", "g", "-"};
     uint64_t idx = 0;
     for (auto b : bounds) for (int delta = -3; delta <= 3; delta++) {
